@@ -53,6 +53,14 @@ Theorem c12_png_cover_full :
   forall b m, png_box_map b = Ok m -> ~ trailing (len b) m -> forall i, i < len b -> cover_count i m = 1%nat.
 Proof. exact png_cover_full. Qed.
 
+(* the file as signature ++ encoded chunks ++ trailer (well-formed chunks, IEND last and only last):
+   the map ends exactly where the trailer begins, so the class [trailing] is precisely "bytes after IEND" *)
+Theorem c12_png_trailing_is_trailer :
+  forall cs tr m, Forall wf_pchunk cs -> iend_last cs ->
+    png_box_map (png_file cs tr) = Ok m ->
+    span_end m + len tr = len (png_file cs tr) /\ (trailing (len (png_file cs tr)) m <-> tr <> []).
+Proof. exact png_file_span. Qed.
+
 Theorem c12_png_trailing_refuted :
   exists b m, png_box_map b = Ok m /\ trailing (len b) m /\ exists i, i < len b /\ cover_count i m = 0%nat.
 Proof. exact png_trailing_refuted. Qed.
